@@ -691,6 +691,8 @@ class Interp(object):
             return all(self._closed(f) for f in v.fields)
         if isinstance(v, Ar):
             return all(self._closed(f) for f in v.elems)
+        if isinstance(v, FnV):
+            return True          # a function item / pointer in a constant table
         return False
 
     def promoted(self, st, fr, idx, ty):
@@ -1317,6 +1319,15 @@ class Interp(object):
         c = t['f'].get('fn')
         site = (fr.key, fr.bb, 't')
         if c is None:
+            # a call through a function pointer / closure value held in a local (tables of constructors, `f(x)` with f: fn(..))
+            fv = self.operand(st, fr, t['f']) if t['f'].get('k') in ('copy', 'move') else None
+            if isinstance(fv, Rf):
+                fv = self.deref_all(st, fv)
+            if isinstance(fv, (FnV, Clo)):
+                cargs = [self.operand(st, fr, a) for a in t['args']]
+                r = self.call_closure(st, fv, cargs, lambda I2, s2, val: I2.done(s2, s2.top(), t, val))
+                if r is not None:
+                    return r
             raise Lost('indirect call')
         args = [self.operand(st, fr, a) for a in t['args']]
         gargs = [subst_ty(a, fr.subst) for a in c['args']]
